@@ -333,7 +333,30 @@ def r17_8(ctx):
                    'but solved with the unweighted mass inverse, which is not a projection', definite=True)
 
 
+def r17_10(ctx):
+    """bspline.interpolate: the coefficients are the solution of the collocation system for the nodes in use on EVERY path;
+    returning the sampled values themselves is right only for the Greville nodes of degree <= 1."""
+    f = ctx.prog.func(B + '.interpolate')
+    rets = guards.returns_of(f.node)
+    n = 0
+    for r in rets:
+        if r.value is None:
+            continue
+        n += 1
+        e = resolve.expand(r.value, r)
+        solves = any(isinstance(c, ast.Call) and (call_name(c) or '').split('.')[-1] in ('spsolve', 'solve', 'lstsq', 'dot', 'make_solver') for c in ast.walk(e))
+        ctx.decide('R17.10', f.qual, src(r)[:90], solves, r, 'coefficients from the collocation system' if solves else
+                   'this exit returns the sampled values without solving the collocation system: for user-supplied nodes (p = 1, non-Greville '
+                   'nodes) the result neither reproduces splines nor matches the data at the nodes', definite=True)
+    ctx.floor('R17.10', 'returns of bspline.interpolate', n, 1)
+
+
 def run(ctx):
+    r17_10(ctx)
+    # R17.9 = R09.8: quadrature rules are fresh arrays (consumers scale the weights in place); a memo that hands out stored
+    # rules pollutes every later mass matrix / load vector with the same mesh and node count
+    import rules.C09 as c09
+    ctx.shared(c09.r09_8, 'R09.8', 'R17.9')
     r17_8(ctx)
     r17_1(ctx)
     r17_2(ctx)
